@@ -2,7 +2,7 @@
 # usage: mutant_trial.sh <name> <file> <sed-expr> <ID> [<ID>...]   (uses /tmp/mut-main + /tmp/vm-main)
 name="$1"; file="$2"; expr="$3"; shift 3
 cd /tmp/mut-main && git checkout -q -- . && sed -i "$expr" "$file" && git diff --stat | tail -1
-cd /tmp/vm-main && git checkout -q -- repo_link && git merge -q --no-edit main >/dev/null 2>&1; ln -sfn /tmp/mut-main /tmp/vm-main/repo_link
+cd /tmp/vm-main && git reset -q --hard main; ln -sfn /tmp/mut-main /tmp/vm-main/repo_link
 for id in "$@"; do
   VERIF_JOBS=${VERIF_JOBS:-10} timeout 1500 ./check $id --tier quick > scratch_$name_$id.log 2>&1; rc=$?
   echo "MUTANT $name $id exit=$rc :: $(grep -E 'VIOLATION|INCONCLUSIVE' scratch_$name_$id.log | head -2 | cut -c1-200 | tr '\n' ' ') $(grep -A1 VIOLATION scratch_$name_$id.log | grep detail | head -1 | cut -c1-300)"
